@@ -80,6 +80,40 @@ class SolView(object):
                 return dict(reproduced=True, path=path, detail='%s<%s>: parameters set by name (ascending, then descending order) do not all read back: %s' % (
                     view.name, view.scalar, '; '.join(l for l in out.splitlines() if l.startswith('R clobbered'))[:200]))
             return dict(reproduced=False, path=None, detail='real library: every parameter reads back')
+        # ... and the same registration (names, default values) in a release build: assert() is compiled away with -DNDEBUG, so a
+        #     registration or initialisation call written inside an assert leaves the solution without (some of) its parameters
+        diff = []
+        try:
+            if not getattr(self.chk, 'config_extra', ()):
+                wn = self.chk.world(extra=('-DNDEBUG',))
+                stn, soln = wn.find(self.scalar, self.name)
+                dn = {}
+                for pname, (idx, a) in soln['params'].items():
+                    e = stn.mem.get((a.rid, a.off)) if a is not None else None
+                    dn[pname] = e[1].p if e is not None and isinstance(e[1], T) and tm.isc(e[1]) else None
+                for pname in sorted(set(self.sol['params']) | set(dn)):
+                    if pname not in dn or pname not in self.sol['params'] or dn.get(pname) != self.defaults.get(pname):
+                        diff.append(pname)
+        except Exception as e_:
+            self.chk.notes.append('NDEBUG registration comparison of %s<%s> not run: %r' % (self.name, self.scalar, e_))
+        defaults = dict(self.defaults)
+
+        def replay_nd(ob, model):
+            import replay as rp
+            from replay import Lib
+            cxx = rp.SCALAR_CXX[view.scalar]
+            lit = lambda q: '(Scalar)%s/(Scalar)%s' % (('%dL' % q.numerator) if abs(q.numerator) > 2 ** 31 else q.numerator, ('%dL' % q.denominator) if q.denominator > 2 ** 31 else q.denominator)
+            chk_ = ' '.join('{ Scalar g_ = masa_get_param<Scalar>("%s"); Scalar w_ = %s; Scalar d_ = g_ > w_ ? g_ - w_ : w_ - g_; if(!(d_ <= (Scalar)1e-12 * (w_ < 0 ? -w_ : w_) + (Scalar)1e-300)) { bad++; printf("\\nR differs %s\\n"); } }' % (n, lit(Fraction(defaults[n])), n)
+                            for n in names if defaults.get(n) is not None)
+            src = '#include <masa.h>\n#include <cstdio>\nusing namespace MASA;\ntypedef %s Scalar;\nint main(){\n masa_init<Scalar>("h","%s"); int bad = 0;\n %s\n printf("\\nR release_build_defaults_ok %%d\\n", bad == 0);\n return 0;}\n' % (cxx, view.name, chk_)
+            rc, out, err = Lib(view.chk.scratch, extra=('-DNDEBUG',)).run(src)
+            if 'R release_build_defaults_ok 1' not in out:
+                path = view.chk.save_replay(ob, dict(obligation=ob.name, stdout=out[-1500:], rc=rc, build='-DNDEBUG', differing=diff[:8]), src)
+                return dict(reproduced=True, path=path, detail='%s<%s> built with -DNDEBUG: registered parameters/defaults differ from the default build: %s' % (
+                    view.name, view.scalar, '; '.join(l for l in out.splitlines() if l.startswith('R differs') or 'ERROR' in l)[:200]))
+            return dict(reproduced=False, path=None, detail='real -DNDEBUG library: same defaults')
+        self.chk.paths_clean('%s<%s>:same-registered-parameters-and-defaults-in-a-release-build(-DNDEBUG)' % (self.name, self.scalar), [tm.TRUE] if diff else [],
+                             key='%s:parameter-binding:NDEBUG' % self.name, family='parameter-binding', sample=dict(obligation='registration with -DNDEBUG', differing=diff[:8]), replay=replay_nd)
         self.chk.paths_clean('%s<%s>:every-registered-parameter-is-bound-to-a-member-of-its-own' % (self.name, self.scalar), [tm.TRUE] if (shared or unbound) else [],
                              key='%s:parameter-binding' % self.name, family='parameter-binding', sample=dict(obligation='registration', shared_members=shared[:4], unbound=unbound[:4]), replay=replay)
 
